@@ -60,6 +60,7 @@ CHECKS_BY_KIND = {
         {"k": "in_range", "a": [1, 2]}, {"k": "in_range", "a": [1, 3, False, True]},
         {"k": "in_range", "a": [1, 3, True, False]}, {"k": "in_range", "a": [2, 2]},
         {"k": "isin", "a": [[1, 2]]}, {"k": "notin", "a": [[2]]}, {"k": "isin", "a": [[1, 2, 3, 4]]},
+        {"k": "custom_raise", "a": []},   # a user check that raises: CHECK_ERROR, must not hide the other checks' reports
     ],
     "float": [
         {"k": "ge", "a": [2.5]}, {"k": "gt", "a": [2.5]}, {"k": "le", "a": [2.5]}, {"k": "lt", "a": [2.5]},
